@@ -55,8 +55,9 @@ class EvalCtx(object):
         #     print('^^^' + '  '*self.level, node_type, node)
 
         if node_type is AstName:
-            names = node.flow.names_at(np(node))
-            name = names.get(node.id)
+            # a name in a place the analysis does not follow belongs to no region
+            flow = getattr(node, 'flow', None)
+            name = flow and flow.names_at(np(node)).get(node.id)
             if name:
                 return self.evaluate(name)
         elif node_type is AssignedName:
@@ -102,8 +103,8 @@ class EvalCtx(object):
         cname = None
         if node_type is AstName:
             ast_name = node  # type: AstName # type: ignore[assignment]
-            names = ast_name.flow.names_at(np(ast_name))  # type: ignore[attr-defined]
-            cname = names.get(ast_name.id)
+            flow = getattr(ast_name, 'flow', None)
+            cname = flow and flow.names_at(np(ast_name)).get(ast_name.id)
         elif node_type is MultiName:
             mname = node  # type: MultiName # type: ignore[assignment]
             names = mname.valid_names
